@@ -402,13 +402,26 @@ pub fn run(args: Args) {
         replay(&mut ctx, &mut out, path);
         out.finish();
         fs::remove_dir_all(&scratch).ok();
+        if !args.extra.contains_key("no-variants") {
+            for (wat, wit) in [(false, true), (false, false), (true, false)] {
+                if let Err(e) = run_variant(&args, wat, wit) {
+                    eprintln!("c18: feature variant wat={wat} wit={wit} failed: {e}");
+                    std::process::exit(3);
+                }
+            }
+        }
         return;
     }
 
+    // `--stride n` keeps a pseudo-random 1/n of the enumeration (used for the feature variants in
+    // the quick tier); the selection is a hash of the case index so that it does not alias with
+    // the nesting of the loops
+    let stride = args.num("stride", 1).max(1) as u64;
     let mut idx = 0usize;
     let mut mine = |idx: &mut usize| {
         *idx += 1;
-        *idx % nshards == shard
+        let h = (*idx as u64).wrapping_mul(0x9E3779B97F4A7C15) >> 33;
+        *idx % nshards == shard && h % stride == 0
     };
 
     // 1. single key, exhaustive layouts
@@ -497,6 +510,100 @@ pub fn run(args: Args) {
     }
     out.finish();
     fs::remove_dir_all(&scratch).ok();
+
+    // 3. the same enumeration against wac-resolver built with the other feature sets
+    if args.extra.contains_key("no-variants") {
+        return;
+    }
+    for (i, (wat, wit)) in [(false, true), (false, false), (true, false)].into_iter().enumerate() {
+        if (i + 1) % nshards != shard {
+            continue;
+        }
+        if let Err(e) = run_variant(&args, wat, wit) {
+            eprintln!("c18: feature variant wat={wat} wit={wit} failed: {e}");
+            std::process::exit(3);
+        }
+    }
+}
+
+/// Build (cargo, offline, below the runner's target directory) a copy of this harness linked
+/// against wac-resolver with the given features, run it over the full single-shard enumeration
+/// and append its case lines to our output file.
+fn run_variant(args: &Args, wat: bool, wit: bool) -> Result<(), String> {
+    use std::io::Write;
+    let (Ok(repo), Ok(verif), Ok(target)) = (std::env::var("WACV_REPO"), std::env::var("WACV_VERIF"), std::env::var("WACV_TARGET")) else {
+        eprintln!("c18: WACV_REPO/WACV_VERIF/WACV_TARGET not set, feature variants skipped");
+        return Ok(());
+    };
+    let ws = PathBuf::from(&target).join("c18x-ws");
+    let name = format!("c18x-w{}i{}", wat as u8, wit as u8);
+    let member = ws.join(&name);
+    fs::create_dir_all(member.join("src")).map_err(|e| e.to_string())?;
+    let write_if_changed = |p: &Path, s: &str| {
+        if fs::read_to_string(p).ok().as_deref() != Some(s) {
+            fs::write(p, s).unwrap();
+        }
+    };
+    // the workspace lists all three members so that they share one lock file and one target dir
+    write_if_changed(
+        &ws.join("Cargo.toml"),
+        "[workspace]\nmembers = [\"c18x-w0i1\", \"c18x-w0i0\", \"c18x-w1i0\"]\nresolver = \"2\"\n\n[profile.dev]\nopt-level = 1\ndebug = 1\n",
+    );
+    for (w, i) in [(false, true), (false, false), (true, false)] {
+        let n = format!("c18x-w{}i{}", w as u8, i as u8);
+        let m = ws.join(&n);
+        fs::create_dir_all(m.join("src")).map_err(|e| e.to_string())?;
+        let mut feats = Vec::new();
+        if i {
+            feats.push("\"wit\"");
+        }
+        if w {
+            feats.push("\"wat\"");
+        }
+        let toml = format!(
+            "[package]\nname = \"{n}\"\nversion = \"0.0.0\"\nedition = \"2021\"\npublish = false\n\n[dependencies]\n\
+             wac-types = {{ path = \"{repo}/crates/wac-types\" }}\n\
+             wac-resolver = {{ path = \"{repo}/crates/wac-resolver\", default-features = false, features = [{}] }}\n\
+             wit-component = \"0.247.0\"\nwit-parser = \"0.247.0\"\nwat = \"1.245.1\"\nsemver = \"1.0.22\"\nindexmap = \"2.2.6\"\nmiette = \"7.2.0\"\n\n\
+             [lints.rust]\nunexpected_cfgs = {{ level = \"allow\" }}\n",
+            feats.join(", ")
+        );
+        write_if_changed(&m.join("Cargo.toml"), &toml);
+        let main = format!(
+            "#![allow(dead_code)]\n#[path = \"{verif}/harness/src/lib.rs\"]\nmod api;\n#[path = \"{verif}/harness/src/c18_core.rs\"]\nmod c18_core;\nfn main() {{\n    c18_core::run(api::Args::parse());\n}}\n"
+        );
+        write_if_changed(&m.join("src/main.rs"), &main);
+    }
+    if !ws.join("Cargo.lock").exists() {
+        fs::copy(PathBuf::from(&repo).join("Cargo.lock"), ws.join("Cargo.lock")).map_err(|e| e.to_string())?;
+    }
+    // cargo serialises concurrent builds in one target directory by itself
+    let st = std::process::Command::new("cargo")
+        .args(["build", "--offline", "--quiet", "-p", &name])
+        .current_dir(&ws)
+        .env("CARGO_TARGET_DIR", ws.join("target"))
+        .env("CARGO_NET_OFFLINE", "true")
+        .env("RUSTFLAGS", "--cfg wac_verif")
+        .output()
+        .map_err(|e| format!("cargo: {e}"))?;
+    if !st.status.success() {
+        return Err(format!("cargo build -p {name} failed:\n{}", String::from_utf8_lossy(&st.stderr)));
+    }
+    let tmp = format!("{}.{}", args.out, name);
+    let st = std::process::Command::new(ws.join("target/debug").join(&name))
+        .args(["--tier", &args.tier, "--seed", &args.seed.to_string(), "--out", &tmp, "--shard", "0", "--nshards", "1", "--no-variants", "1"])
+        .args(["--stride", if args.thorough() { "1" } else { "3" }])
+        .args(args.replay.iter().flat_map(|r| ["--replay".to_string(), r.clone()]))
+        .output()
+        .map_err(|e| format!("run {name}: {e}"))?;
+    if !st.status.success() {
+        return Err(format!("{name} exited with {:?}:\n{}", st.status.code(), String::from_utf8_lossy(&st.stderr)));
+    }
+    let lines = fs::read(&tmp).map_err(|e| e.to_string())?;
+    let mut f = fs::OpenOptions::new().append(true).open(&args.out).map_err(|e| e.to_string())?;
+    f.write_all(&lines).map_err(|e| e.to_string())?;
+    fs::remove_file(&tmp).ok();
+    Ok(())
 }
 
 // ------------------------------------------------------------------------------------------
